@@ -13,12 +13,32 @@ import (
 )
 
 type Op struct {
-	K string `json:"k"` // "put" | "reload" | "probe"
-	D []byte `json:"d,omitempty"`
+	K  string   `json:"k"` // "put" | "reload" | "probe" | "puts"
+	D  []byte   `json:"d,omitempty"`
+	Ns [][]byte `json:"ns,omitempty"` // "puts": a batch of names, observed as one step
 }
 
 type Input struct {
 	Ops []Op `json:"ops"`
+	// Reuse: every Put is issued from ONE caller-owned buffer that is overwritten in place between calls and
+	// scribbled over right after Put returns (a scanner / scratch buffer); otherwise from a fresh slice
+	Reuse bool `json:"reuse,omitempty"`
+}
+
+// the caller's reused buffer (Reuse mode)
+var scratch = make([]byte, 1024)
+
+func putName(d *dict.Dict, name []byte, reuse bool) []byte {
+	if !reuse || len(name) > len(scratch) {
+		return append([]byte{}, d.Put(dict.Value(append([]byte{}, name...)))...)
+	}
+	buf := scratch[:len(name)]
+	copy(buf, name)
+	key := append([]byte{}, d.Put(dict.Value(buf))...)
+	for i := range scratch { // the caller goes on using its buffer
+		scratch[i] = 0xEE
+	}
+	return key
 }
 
 // ---------- dumping ----------
@@ -77,8 +97,10 @@ func run(in Input) lib.Result {
 	reloadAfterSplit := false
 	seen := map[string]bool{}
 	crash := ""
+	batched, maxSer := 0, 0
 	for _, op := range in.Ops {
 		key := []byte{}
+		var batchKeys [][]byte
 		ok := true
 		probe := "GMissing"
 		switch op.K {
@@ -91,7 +113,7 @@ func run(in Input) lib.Result {
 						crash = "Put panicked"
 					}
 				}()
-				key = append([]byte{}, d.Put(dict.Value(name))...)
+				key = putName(d, name, in.Reuse)
 			}()
 			keys = append(keys, key)
 			if splitHappened(before, d.VerifDump()) {
@@ -106,7 +128,33 @@ func run(in Input) lib.Result {
 			}
 			seen[string(name)] = true
 			ops = append(ops, "CPut "+lib.Bytes(name))
+		case "puts":
+			before := d.VerifDump()
+			func() {
+				defer func() {
+					if r := recover(); r != nil {
+						crash = "Put panicked"
+					}
+				}()
+				for _, n := range op.Ns {
+					k := putName(d, n, in.Reuse)
+					keys = append(keys, k)
+					batchKeys = append(batchKeys, k)
+					if len(n) > maxLen {
+						maxLen = len(n)
+					}
+					puts++
+				}
+			}()
+			if splitHappened(before, d.VerifDump()) {
+				splits++
+			}
+			batched += len(op.Ns)
+			ops = append(ops, "CPuts "+lib.BytesList(op.Ns))
 		case "reload":
+			if b, err := d.Bytes(); err == nil && len(b) > maxSer {
+				maxSer = len(b)
+			}
 			func() {
 				defer func() {
 					if r := recover(); r != nil {
@@ -139,7 +187,7 @@ func run(in Input) lib.Result {
 		for i, k := range keys {
 			gets[i] = safeGet(d, k)
 		}
-		obs = append(obs, "{| so_key := "+lib.Bytes(key)+"; so_ok := "+lib.Bool(ok)+
+		obs = append(obs, "{| so_key := "+lib.Bytes(key)+"; so_keys := "+lib.BytesList(batchKeys)+"; so_ok := "+lib.Bool(ok)+
 			"; so_dump := "+coqTrie(d.VerifDump())+"; so_gets := "+lib.List(gets)+"; so_probe := "+probe+" |}")
 	}
 	coq := "{| c_ops := " + lib.List(ops) + "; c_obs := " + lib.List(obs) + " |}"
@@ -147,9 +195,67 @@ func run(in Input) lib.Result {
 		Coq:        coq,
 		NonTrivial: splits >= 1 && puts >= 2,
 		Feat: map[string]interface{}{"splits": splits, "reloads": reloads, "probes": probes, "puts": puts,
-			"max_name_len_class": lenClass(maxLen), "repeated_names": repeats, "reload_after_split": reloadAfterSplit},
+			"max_name_len_class": lenClass(maxLen), "repeated_names": repeats, "reload_after_split": reloadAfterSplit,
+			"caller_buffer_reused": in.Reuse, "batched_puts_class": bigClass(batched), "max_serialized_4k_pages": maxSer / 4096},
 		Crash: crash,
 	}
+}
+
+func bigClass(n int) string {
+	switch {
+	case n == 0:
+		return "0"
+	case n < 300:
+		return "<300"
+	case n < 600:
+		return "300-599"
+	default:
+		return ">=600"
+	}
+}
+
+// big dictionary: 300-900 names of 5-40 bytes; a save/reload right after the serialized size crosses each multiple
+// of 4096 bytes (the size of bufio's buffer), one more a few names later, and one at the end
+func genBig(r *rand.Rand) Input {
+	in := Input{Reuse: r.Intn(2) == 0}
+	shadow := dict.New()
+	n := lib.Range(r, 300, 900)
+	prefixes := [][]byte{[]byte("github.com/pyroscope-io/"), []byte("runtime."), []byte("net/http.(*"), []byte("main."), {}}
+	var batch [][]byte
+	lastPage := 0
+	extra := -1
+	flush := func(reload bool) {
+		if len(batch) > 0 {
+			in.Ops = append(in.Ops, Op{K: "puts", Ns: batch})
+			batch = nil
+		}
+		if reload {
+			in.Ops = append(in.Ops, Op{K: "reload"})
+		}
+	}
+	for i := 0; i < n; i++ {
+		l := lib.Range(r, 5, 40)
+		nm := append([]byte{}, lib.Pick(r, prefixes)...)
+		for len(nm) < l {
+			nm = append(nm, "abcdefghijklmnopqrstuvwxyz_0123456789"[r.Intn(37)])
+		}
+		nm = nm[:l]
+		batch = append(batch, nm)
+		shadow.Put(dict.Value(append([]byte{}, nm...)))
+		b, _ := shadow.Bytes()
+		if page := len(b) / 4096; page > lastPage {
+			lastPage = page
+			flush(true)
+			extra = lib.Range(r, 1, 4)
+		} else if extra == 0 {
+			flush(true)
+			extra = -1
+		} else if extra > 0 {
+			extra--
+		}
+	}
+	flush(true)
+	return in
 }
 
 func lenClass(n int) string {
@@ -272,7 +378,11 @@ func randProbe(r *rand.Rand, issued [][]byte) []byte {
 }
 
 func gen(r *rand.Rand, idx int, tier string) Input {
+	if idx%300 == 150 {
+		return genBig(r)
+	}
 	var in Input
+	in.Reuse = r.Intn(2) == 0
 	// probe keys need the keys the implementation issued: run a shadow dictionary while generating
 	shadow := dict.New()
 	var issued, names [][]byte
@@ -349,6 +459,7 @@ func enum(tier string) []Input {
 			seq := []int{i % n, (i / n) % n, (i / n / n) % n, i / n / n / n}
 			pos := k % 5
 			var in Input
+			in.Reuse = k%2 == 0
 			for j, x := range seq {
 				if j == pos {
 					in.Ops = append(in.Ops, Op{K: "reload"})
